@@ -53,8 +53,8 @@ def run(prog, tier, res):
                        "atoms on dominating edges (or on every acyclic path to the site), symbol ranges, type invariants from the constructor "
                        "census, and exact linear arithmetic; anything else is a violation. The dev-profile MIR carries the overflow Asserts, so "
                        "the verdict covers the unchecked build as well. Inputs are unconstrained (any length, any bytes, any string).")
-    R1 = res.rule("C01.R1", "MIR Assert (index bounds, integer overflow, division by zero) proved from dominating guards", 85)
-    R2 = res.rule("C01.R2", "std call with a panic condition (unwrap/expect, Index, copy_from_slice, chunks_exact, from_str_radix, sum, with_capacity, operator traits) proved", 150)
+    R1 = res.rule("C01.R1", "MIR Assert (index bounds, integer overflow, division by zero) proved from dominating guards", 60)
+    R2 = res.rule("C01.R2", "std call with a panic condition (unwrap/expect, Index, copy_from_slice, chunks_exact, from_str_radix, sum, with_capacity, operator traits) proved", 100)
     R3 = res.rule("C01.R3", "explicit panic!/unreachable! sites are unreachable (contradictory guards on every path)", 1)
     R4 = res.rule("C01.R4", "every loop has a termination class (iterator over a finite source; audited clears-top-bit)", 6)
     R5 = res.rule("C01.R5", "every external callee has a panic rule or an audited-total entry", 60)
